@@ -1013,6 +1013,13 @@ impl<'de> serde::de::Visitor<'de> for ParsedValueSeed<'_> {
     where
         E: serde::de::Error,
     {
+        if self.in_range {
+            // an explicit default (null) can't be rendered as the value of a range branch
+            return Err(serde::de::Error::invalid_type(
+                serde::de::Unexpected::Unit,
+                &self,
+            ));
+        }
         Ok(ParsedValue::Default)
     }
 
